@@ -1074,7 +1074,7 @@ def schedules_for(route, t):
 # ---------------------------------------------------------------------------
 
 MODES = ['Replace', 'And', 'Or', 'Xor', 'AndNot', 'New']
-NSTATES = 3
+NSTATES = 4
 EDIT_VARIANTS = ['every', 'end']
 
 
@@ -1107,6 +1107,8 @@ class EditWorld(object):
             return S.InequalitySubsetState(self.da.id['x'], 1.0, operator.gt)   # both datasets (link)
         if i == 1:
             return S.RangeSubsetState(1, 3, self.db.id['z'])                     # incompatible with A
+        if i == 3:
+            return S.RangeSubsetState(1, 3, self.da.id['y'])                     # SAME limits as 1, other attribute
         return S.ElementSubsetState(indices=[0, 3])                             # any dataset
 
 
